@@ -5,7 +5,6 @@ Require Import Repl Tables.
 Open Scope N_scope.
 
 Lemma latex_table_ok : table_ok latex_table = true. Proof. vm_compute. reflexivity. Qed.
-Lemma roff_table_ok : table_ok roff_table = true. Proof. vm_compute. reflexivity. Qed.
 Lemma markdown_table_ok : table_ok markdown_table = true. Proof. vm_compute. reflexivity. Qed.
 Lemma html_table_ok : table_ok html_table = true. Proof. vm_compute. reflexivity. Qed.
 
@@ -13,18 +12,16 @@ Lemma html_table_ok : table_ok html_table = true. Proof. vm_compute. reflexivity
 Definition tex_specials : str := [92; 123; 125; 36; 38; 35; 94; 95; 37; 126].
 Lemma latex_specials_keys : specials_are_keys latex_table tex_specials = true. Proof. vm_compute. reflexivity. Qed.
 
-(* roff-significant characters: . ' \ " *)
+(* roff-significant characters: dot, quote, backslash, double quote *)
 Definition roff_specials : str := [46; 39; 92; 34].
 Lemma roff_specials_keys : specials_are_keys roff_table roff_specials = true. Proof. vm_compute. reflexivity. Qed.
 
-(* XML markup-significant characters: < > & " ' *)
+(* XML markup-significant characters: less-than, greater-than, ampersand, double quote, quote *)
 Definition xml_specials : str := [60; 62; 38; 34; 39].
 Lemma html_specials_keys : specials_are_keys html_table xml_specials = true. Proof. vm_compute. reflexivity. Qed.
 
 Theorem latex_roundtrip : forall s, dec latex_table (length (enc latex_table s)) (enc latex_table s) = Some s.
 Proof. intros s. apply dec_enc; [exact latex_table_ok | apply le_n]. Qed.
-Theorem roff_roundtrip : forall s, dec roff_table (length (enc roff_table s)) (enc roff_table s) = Some s.
-Proof. intros s. apply dec_enc; [exact roff_table_ok | apply le_n]. Qed.
 Theorem html_roundtrip : forall s, dec html_table (length (enc html_table s)) (enc html_table s) = Some s.
 Proof. intros s. apply dec_enc; [exact html_table_ok | apply le_n]. Qed.
 
@@ -35,3 +32,38 @@ Proof.
   intros tbl sp c H Hin. unfold specials_are_keys in H. rewrite forallb_forall in H. specialize (H c Hin).
   destruct (enc1_cases tbl c) as [?|[Hk _]]; [assumption|congruence].
 Qed.
+
+(* ---- roff: escaped text is never read as a request, and every backslash starts an exporter escape ----
+   The machine reads the characters of a chunk of escaped text.  Resting states: at the beginning of a line
+   (the chunk may itself start a line) or inside one.  A dot or a quote first on a line, a double quote
+   anywhere (it would end a quoted request argument), a backslash not followed by one of
+   e & ~ (dq (cq, all lead to Bad. *)
+Inductive rstate := Bol | Mid | Bs | Par | ParD | ParC | Bad.
+Definition rstep (q : rstate) (c : N) : rstate :=
+  match q with
+  | Bol => if c =? 92 then Bs else if (c =? 46) || (c =? 39) || (c =? 34) then Bad else if c =? 10 then Bol else Mid
+  | Mid => if c =? 92 then Bs else if c =? 34 then Bad else if c =? 10 then Bol else Mid
+  | Bs => if (c =? 101) || (c =? 38) || (c =? 126) then Mid else if c =? 40 then Par else Bad
+  | Par => if c =? 100 then ParD else if c =? 99 then ParC else Bad
+  | ParD | ParC => if c =? 113 then Mid else Bad
+  | Bad => Bad
+  end.
+Definition rresting (q : rstate) : Prop := q = Bol \/ q = Mid.
+
+Lemma roff_images_rest : forall k im q, In (k, im) roff_table -> rresting q -> rresting (mrun rstate rstep q im).
+Proof.
+  intros k im q Hin [->| ->]; cbn in Hin;
+    repeat (destruct Hin as [Hin|Hin]; [inversion Hin; subst; vm_compute; auto|]); contradiction.
+Qed.
+Lemma roff_pass_rest : forall c q, is_key roff_table c = false -> rresting q -> rresting (rstep q c).
+Proof.
+  intros c q Hk Hq.
+  assert (H92 : (c =? 92) = false) by (destruct (N.eqb_spec c 92) as [->|]; [vm_compute in Hk; discriminate|reflexivity]).
+  assert (H46 : (c =? 46) = false) by (destruct (N.eqb_spec c 46) as [->|]; [vm_compute in Hk; discriminate|reflexivity]).
+  assert (H39 : (c =? 39) = false) by (destruct (N.eqb_spec c 39) as [->|]; [vm_compute in Hk; discriminate|reflexivity]).
+  assert (H34 : (c =? 34) = false) by (destruct (N.eqb_spec c 34) as [->|]; [vm_compute in Hk; discriminate|reflexivity]).
+  destruct Hq as [->| ->]; unfold rstep; rewrite ?H92, ?H46, ?H39, ?H34; cbn [orb]; destruct (c =? 10); unfold rresting; auto.
+Qed.
+
+Theorem roff_escape_safe : forall s q, rresting q -> rresting (mrun rstate rstep q (enc roff_table s)).
+Proof. intros s q. apply enc_rests; [exact roff_images_rest | exact roff_pass_rest]. Qed.
